@@ -79,7 +79,8 @@ inline void sh_emit(const std::string& form, const std::vector<ShSet>& sets) {
     if (s.cs < sh_need_c(s, full) || s.ss < sh_need_s(s, full)) shortv = true;
     if (s.N > 46340 || s.N < -1) huge = true;
   }
-  // too-short vectors (an accepting constructor would read out of bounds) and degrees whose index arithmetic leaves `int`: in a child
+  // too-short vectors (an accepting constructor would read out of bounds) and degrees beyond the bound 46339 (whose index arithmetic would
+  // leave `int` if the constructor did not refuse them first, F79): in a child
   if (shortv || huge) run_isolated("c13_shctor", a, 60); else runx("c13_shctor", a);
 }
 
